@@ -99,7 +99,9 @@ func comparePairs(pairs map[string][]pairSide) []interface{} {
 			}
 			ga, gb := a.obs.Groups[gi], b.obs.Groups[gi]
 			if ga.Name == a.varied {
-				if a.obs.Out >= 2 || b.obs.Out >= 2 {
+				// (a panic — outcome 4 — is no legitimate end of a scan: the later groups are still compared, and reported as
+				// reached in one world only)
+				if (a.obs.Out >= 2 && a.obs.Out != 4) || (b.obs.Out >= 2 && b.obs.Out != 4) {
 					// the varied group (or an earlier one) may have ended one of the scans: later groups are not comparable
 					if !(ga.Reached && gb.Reached) {
 						break
@@ -111,7 +113,7 @@ func comparePairs(pairs map[string][]pairSide) []interface{} {
 								last = i
 							}
 						}
-						return o.Out >= 2 && last == gi
+						return o.Out >= 2 && o.Out != 4 && last == gi
 					}
 					if endedHere(a.obs) || endedHere(b.obs) {
 						break
